@@ -181,6 +181,9 @@ class Instrumented(object):
         self.qualname, self.file, self.lineno = qualname, file, lineno
 
     def __call__(self, *a, **k):
+        from .core import Ctx
+        if Ctx.current is not None:
+            Ctx.current.called = True
         return self.fn(*a, **k)
 
     def describe(self):
